@@ -49,6 +49,8 @@ def _values(rng, kind, n):
         # (the same hostile strings whether the column is the library's string type or a NumPy fixed-width one)
         pool = gen.STR_SHORT + WIDE + MULTI + ["q" * 60, 'say "hi"', ""]
         return [None if rng.random() < 0.15 else rng.choice(pool) for _ in range(n)]
+    if kind == "bytes":
+        return [rng.choice([b"a", b"bc", b"", b"zzz", b"\xff\xfe", b"caf\xe9", b"\x80"]) for _ in range(n)]      # not all bytes are text
     if kind == "obj":
         pool = [{"k": 1}, [1, 2, 3], "multi\nline", (1, 2), None, 3.5, "日本", {"nested": {"a": [1, 2]}}, "x" * 80]
         return [rng.choice(pool) for _ in range(n)]
